@@ -439,6 +439,12 @@ pub fn pat64(k: u64) -> u64 {
     0x0102_0304_0506_0708u64.wrapping_mul(2 * k + 1) ^ (k << 56) ^ 0x8070_6050_4030_2010
 }
 
+/// Like `pat64` but below 2^62 and 16-byte aligned: sums of two do not wrap and ring addresses
+/// are aligned, so the pattern assignments stay protocol-valid.
+pub fn patv(k: u64) -> u64 {
+    (pat64(k) >> 2) & !0xf
+}
+
 /// Argument lattice of the frontend API: (a) pattern assignments, (b) per-field boundary sweeps,
 /// (c) every variable length. `level` 0 = quick, 1 = thorough. Only arguments the API accepts.
 pub fn fe_variants(level: u8, seed: u64) -> Vec<FeOp> {
@@ -455,7 +461,7 @@ pub fn fe_variants(level: u8, seed: u64) -> Vec<FeOp> {
     }
     // memory tables: every region count 1..=32 with pattern values
     for n in 1..=32usize {
-        let rs = (0..n).map(|i| (pat64(4 * i as u64), pat64(4 * i as u64 + 1) | 1, pat64(4 * i as u64 + 2), pat64(4 * i as u64 + 3), i)).collect();
+        let rs = (0..n).map(|i| (patv(4 * i as u64), patv(4 * i as u64 + 1) | 1, patv(4 * i as u64 + 2), patv(4 * i as u64 + 3), i)).collect();
         v.push(FeOp::SetMemTable(rs));
     }
     // per-field sweeps on one region (size must be non-zero for the API to accept it)
@@ -463,35 +469,35 @@ pub fn fe_variants(level: u8, seed: u64) -> Vec<FeOp> {
         v.push(FeOp::SetMemTable(vec![(x, 0x1000, 0x7f00_0000_0000, 0, 0)]));
         v.push(FeOp::SetMemTable(vec![(0x1000, 0x1000, x, 0, 1)]));
         v.push(FeOp::SetMemTable(vec![(0x1000, 0x1000, 0x7f00_0000_0000, x, 2)]));
-        v.push(FeOp::AddMemRegion(x, pat64(1) | 1, pat64(2), pat64(3), 0));
-        v.push(FeOp::AddMemRegion(pat64(4), pat64(5) | 1, x, pat64(6), 1));
-        v.push(FeOp::AddMemRegion(pat64(7), pat64(8) | 1, pat64(9), x, 2));
-        v.push(FeOp::RemoveMemRegion(x, pat64(1) | 1, pat64(2), pat64(3)));
-        v.push(FeOp::RemoveMemRegion(pat64(4), pat64(5) | 1, pat64(6), x));
+        v.push(FeOp::AddMemRegion(x, patv(1) | 1, patv(2), patv(3), 0));
+        v.push(FeOp::AddMemRegion(patv(4), patv(5) | 1, x, patv(6), 1));
+        v.push(FeOp::AddMemRegion(patv(7), patv(8) | 1, patv(9), x, 2));
+        v.push(FeOp::RemoveMemRegion(x, patv(1) | 1, patv(2), patv(3)));
+        v.push(FeOp::RemoveMemRegion(patv(4), patv(5) | 1, patv(6), x));
         if x != 0 {
             v.push(FeOp::SetMemTable(vec![(0x1000, x, 0x7f00_0000_0000, 0, 3)]));
-            v.push(FeOp::AddMemRegion(pat64(10), x, pat64(11), pat64(12), 3));
-            v.push(FeOp::RemoveMemRegion(pat64(10), x, pat64(11), pat64(12)));
-            v.push(FeOp::SetLogBase(0, Some((x, pat64(13)))));
-            v.push(FeOp::SetInflightFd(x, pat64(14), 3, 7));
+            v.push(FeOp::AddMemRegion(patv(10), x, patv(11), patv(12), 3));
+            v.push(FeOp::RemoveMemRegion(patv(10), x, patv(11), patv(12)));
+            v.push(FeOp::SetLogBase(0, Some((x, patv(13)))));
+            v.push(FeOp::SetInflightFd(x, patv(14), 3, 7));
         }
-        v.push(FeOp::SetLogBase(0, Some((pat64(15) | 1, x))));
-        v.push(FeOp::GetInflightFd(x, pat64(16), 5, 9));
-        v.push(FeOp::GetInflightFd(pat64(17), x, 5, 9));
-        v.push(FeOp::SetInflightFd(pat64(18) | 1, x, 3, 7));
-        v.push(FeOp::SetVringAddr(1, 0, x, pat64(19), pat64(20), None));
-        v.push(FeOp::SetVringAddr(1, 1, pat64(21), x, pat64(22), Some(pat64(23))));
-        v.push(FeOp::SetVringAddr(2, 1, pat64(24), pat64(25), x, Some(pat64(26))));
-        v.push(FeOp::SetVringAddr(3, 1, pat64(27), pat64(28), pat64(29), Some(x)));
+        v.push(FeOp::SetLogBase(0, Some((patv(15) | 1, x))));
+        v.push(FeOp::GetInflightFd(x, patv(16), 5, 9));
+        v.push(FeOp::GetInflightFd(patv(17), x, 5, 9));
+        v.push(FeOp::SetInflightFd(patv(18) | 1, x, 3, 7));
+        v.push(FeOp::SetVringAddr(1, 0, x, patv(19), patv(20), None));
+        v.push(FeOp::SetVringAddr(1, 1, patv(21), x, patv(22), Some(patv(23))));
+        v.push(FeOp::SetVringAddr(2, 1, patv(24), patv(25), x, Some(patv(26))));
+        v.push(FeOp::SetVringAddr(3, 1, patv(27), patv(28), patv(29), Some(x)));
     }
     for &n in &l16 {
         v.push(FeOp::SetVringNum(1, n));
         v.push(FeOp::SetVringBase(2, n));
         if n != 0 {
-            v.push(FeOp::GetInflightFd(pat64(30), pat64(31), n, 11));
-            v.push(FeOp::GetInflightFd(pat64(30), pat64(31), 11, n));
-            v.push(FeOp::SetInflightFd(pat64(32) | 1, pat64(33), n, 13));
-            v.push(FeOp::SetInflightFd(pat64(32) | 1, pat64(33), 13, n));
+            v.push(FeOp::GetInflightFd(patv(30), patv(31), n, 11));
+            v.push(FeOp::GetInflightFd(patv(30), patv(31), 11, n));
+            v.push(FeOp::SetInflightFd(patv(32) | 1, patv(33), n, 13));
+            v.push(FeOp::SetInflightFd(patv(32) | 1, patv(33), 13, n));
         }
     }
     for &q in &qs {
@@ -502,7 +508,7 @@ pub fn fe_variants(level: u8, seed: u64) -> Vec<FeOp> {
         v.push(FeOp::SetVringKick(q));
         v.push(FeOp::SetVringErr(q));
         v.push(FeOp::SetVringEnable(q, q % 2 == 0));
-        v.push(FeOp::SetVringAddr(q, (q % 2) as u32, pat64(40), pat64(41), pat64(42), Some(pat64(43))));
+        v.push(FeOp::SetVringAddr(q, (q % 2) as u32, patv(40), patv(41), patv(42), Some(patv(43))));
     }
     // config window: offsets/lengths over the whole window (payload bounded by the 4096-byte message)
     let offs: Vec<u32> = vec![0, 1, 2, 0xff, 0x100, 0x101, 0x7ff, 0x800, 0xffe, 0xfff];
